@@ -329,11 +329,15 @@ def run_check(pid, tier, builder):
     pending = list(workers)
     running = []
     deadline = time.time() + timeout_s
+    stall_s = P.get("stall", 900)
+    last_stall_check = time.time()
+    failing_seen = False
     while pending or running:
         while pending and len(running) < JOBS:
             w = pending.pop(0)
             w.logf = open(w.prefix + ".log", "w")
             w.proc = subprocess.Popen(w.cmd, stdout=w.logf, stderr=subprocess.STDOUT, env=w.env, cwd=rundir)
+            w.started = time.time()
             running.append(w)
         time.sleep(0.05)
         for w in list(running):
@@ -342,6 +346,26 @@ def run_check(pid, tier, builder):
                 w.rc = rc
                 running.remove(w)
                 w.logf.close()
+        now = time.time()
+        if now - last_stall_check > 5:
+            last_stall_check = now
+            for w in list(running):
+                # a worker that has not started a new case for a long time is stuck (seen: sanitizer-runtime deadlock while reporting)
+                try:
+                    last = max(os.path.getmtime(w.prefix + ".current.choices"), w.started)
+                except OSError:
+                    last = w.started
+                if now - last > stall_s:
+                    w.proc.kill()
+                    w.proc.wait()
+                    w.stalled = True
+                    w.rc = -998
+                    running.remove(w)
+                    w.logf.close()
+            if not failing_seen and any(getattr(x, "rc", None) not in (None, 0, -9, -998, -999) for x in workers):
+                # some worker already failed: the verdict no longer depends on the others finishing their budget
+                failing_seen = True
+                deadline = min(deadline, now + 240)
         if time.time() > deadline:
             for w in running:
                 w.proc.kill()
@@ -378,6 +402,13 @@ def run_check(pid, tier, builder):
             agg["notes"] += [n for n in stats["notes"] if n not in agg["notes"]]
         if w.timed_out:
             agg["inconclusive"].append("%s worker %d: time budget hit" % (w.job["prop"], w.idx))
+            continue
+        if getattr(w, "stalled", False):
+            if re.search(r"Sanitizer: CHECK failed|WARNING: ThreadSanitizer|ERROR: AddressSanitizer|runtime error:", w.out) and os.path.exists(w.prefix + ".current.choices"):
+                # the sanitizer had started to report something when the process got stuck: replay the case to find out what
+                failures.append((w, "crash", w.prefix + ".current.choices", "", w.out))
+            else:
+                agg["inconclusive"].append("%s worker %d: no progress for %d s, killed" % (w.job["prop"], w.idx, stall_s))
             continue
         if w.rc == -9:
             # SIGKILL is only sent by the kernel's OOM killer (or an operator): load noise, never a violation
@@ -434,8 +465,13 @@ def run_check(pid, tier, builder):
             sig = None
             rep_out = ""
             for k in range(3):
-                r = subprocess.run([builder.exe(w.job["harness"]), "--prop", w.job["prop"], "--replay", final, "--out", os.path.join(rundir, "replay%d" % k)] + (["--known", known_sigs] if known_sigs else []) + w.job.get("args", []),
-                                   stdout=subprocess.PIPE, stderr=subprocess.STDOUT, text=True, errors="replace", env=w.env, cwd=rundir, timeout=600)
+                try:
+                    r = subprocess.run([builder.exe(w.job["harness"]), "--prop", w.job["prop"], "--replay", final, "--out", os.path.join(rundir, "replay%d" % k)] + (["--known", known_sigs] if known_sigs else []) + w.job.get("args", []),
+                                       stdout=subprocess.PIPE, stderr=subprocess.STDOUT, text=True, errors="replace", env=w.env, cwd=rundir, timeout=900)
+                except subprocess.TimeoutExpired:
+                    confirmed = False
+                    agg["inconclusive"].append("%s: replay of %s did not finish in 900 s" % (pid, final))
+                    break
                 rep_out = r.stdout
                 if r.returncode == 0:
                     confirmed = False
